@@ -3,7 +3,7 @@ sys.path.insert(0, os.path.join(os.path.dirname(os.path.dirname(os.path.abspath(
 import vcheck
 
 T = "GeomV.C10."
-TIES = ["LongLat", "Merc", "TMerc", "UTM", "LCC", "AEA", "EqdC", "Krovak", "Registered", "Path", "Datum"]
+TIES = ["LongLat", "Merc", "TMerc", "UTM", "LCC", "AEA", "EqdC", "Krovak", "Registered", "Path", "Datum", "State"]
 CTORS = ["LongLat", "Merc", "TMerc", "UTM", "LCC", "AEA", "EqdC", "Krovak"]
 
 
@@ -15,7 +15,8 @@ def pregen(check):
     module named after the constructor."""
     for mode, fname, marker in (("writes", "GenWrites.lean", "namespace GeomV.C10.Gen"),
                                 ("bodies", "GenBodies.lean", "def ctorBodies"),
-                                ("datum", "GenDatum.lean", "def datumShape")):
+                                ("datum", "GenDatum.lean", "def datumShape"),
+                                ("state", "GenState.lean", "def nonlocalWrites")):
         out = os.path.join(vcheck.LEAN, "GeomV", "C10", fname)
         with vcheck.Lock("go"):
             p = subprocess.run(["go", "run", "./cmd/c10/astwrites", os.path.join(vcheck.REPO, "proj"), mode], cwd=vcheck.HARNESS,
@@ -43,13 +44,14 @@ CFG = {
         "C10_init_idempotent", "C10_init_frame", "C10_CoreOK_ctors", "C10_pure_ctors",
     ]] + [T + "tie_" + t for t in TIES] + [T + "tie_body_" + t for t in CTORS] + [T + n for n in [
         "C10_src_init_total", "C10_src_init_idempotent", "C10_src_init_frame",
-        "C10_datum_frame", "C10_datum_pure", "C10_datum_history",
+        "C10_datum_frame", "C10_datum_pure", "C10_datum_history", "C10_pure_with_datums", "C10_step_datums_frame",
         "C10_mem_refines", "C10_mem_refines_flat", "C10_mem_refines_nil", "C10_mem_vertices",
     ]],
     "trusted_base": [
         "Lean 4.33.0 kernel; axioms of every theorem printed by #print axioms must be within {propext, Classical.choice, Quot.sound}",
-        "Mem.lean (memory model of the eight Transform methods behind C10_input_unchanged) is tied by execution: on every gt line the judge lays the input out in a Mem as the harness does (separate arrays / windows of one buffer / prefix re-slices), runs Mem.transformTop and compares the decoded result with the functional model (hence with the implementation); the real slices are additionally compared before/after/after scribbling",
-        "Ctors.lean (constructors' writes) is a hand transcription; its write SETS are re-extracted from the Go source by go/ast on every run (Ties/*.lean), the values/conditions are covered by the state dumps (every SR = as parsed or after one constructor run) and the wd records (fields changed by one run are within the write set)",
+        "Mem.lean (memory model of the eight Transform methods behind C10_input_unchanged) refines the functional model GeomTransform.lean by theorem C10_mem_refines (all types, nesting, layouts); additionally, on every gt line the judge lays the input out in a Mem as the harness does (separate arrays / windows of one buffer / prefix re-slices), runs Mem.transformTop and compares the decoded result with the functional model (hence with the implementation); the real slices are compared before/after/after scribbling",
+        "Ctors.lean (constructors' writes): write SETS, VALUES and CONDITIONS are re-extracted from the Go source by go/ast on every run (GenWrites.lean, GenBodies.lean) and proved equal to the model (Ties/*.lean: tie_<Ctor> by decide, tie_body_<Ctor> for every SR and float semantics); trusted: the extractor's slicing rule (harness/cmd/c10/astwrites/body.go) and the naming of Go literals / math.* functions as uninterpreted POps operations (CtorIR.lean); also covered at run time by the state dumps (every SR = as parsed or after one constructor run) and the wd records",
+        "Datum.lean (datumTransform on a heap of *datum objects) is a hand transcription with abstract callees; its save/defer-restore shape is re-extracted from the source on every run (GenDatum.lean, tie_Datum) and its callees' write-freedom by tie_Path; at run time the reflection dumps include the unexported datum",
         "model lean/GeomV/C10/{GeomTransform,Transformer}.lean is tied to /repo/transform.go and /repo/proj/{transform,adjust_axis}.go by the correspondence run on every check: "
         "Geom.Transform results compared exactly (bit patterns); transformer results compared bit-for-bit with the model instantiated by oracle tables "
         "(projection forward/inverse, constructor errors through the exported API; datumTransform through hook proj.VerifDatumTransform, build tag verif) filled from the real code, and the SR objects' full "
